@@ -574,3 +574,12 @@ pub proof fn lemma_new_node_exit<P: Prefix, T>(m0: PrefixMap<P, T>, m1: PrefixMa
         }
     }
 }
+
+/// [C02/C13] the mutable twin of lpm_spec (the value reference is mutable)
+pub open spec fn lpm_mut_spec<P: Prefix, T>(m: IMap<Seq<bool>, (P, T)>, q: Seq<bool>, r: Option<(&P, &mut T)>) -> bool {
+    match r {
+        Some(e) => covers(m, e.0.bits(), q) && *e.0 == m[e.0.bits()].0 && *e.1 == m[e.0.bits()].1
+            && (forall|k: Seq<bool>| #[trigger] covers(m, k, q) ==> k.len() <= e.0.bits().len()),
+        None => forall|k: Seq<bool>| !#[trigger] covers(m, k, q),
+    }
+}
